@@ -46,4 +46,13 @@ def falseBranch (es : Edges) (df : Nat → List Nat) (t : Nat) (f : Option Nat) 
   | none => []
   | some f => if (df t).contains f then [] else branch es df f
 
+/-- the walk of `get_join_conditions`: backwards from the predecessors of `j`; the immediate dominator of `j` is visited but not
+    expanded (every path to `j` passes through it) -/
+def joinWalk (es : Edges) (idom : Option Nat) (j : Nat) : List Nat :=
+  closure ((rev es).filter (fun e => some e.1 != idom)) ((es.filter (fun e => e.2 == j)).map (·.1))
+
+/-- `get_join_conditions` for block `j`: the visited blocks that end in an if statement; only blocks with phi statements are looked at -/
+def joinConds (es : Edges) (isBranch hasPhi : Nat → Bool) (idom : Option Nat) (j : Nat) : List Nat :=
+  if hasPhi j then (joinWalk es idom j).filter isBranch else []
+
 end Circomspect.CfgReach
